@@ -136,6 +136,8 @@ class GeneratorCall:
         - *Identity* between generators, and
         - *Equality* between parameter-values.
         """
+        if not isinstance(other, GeneratorCall):
+            return NotImplemented
         return self.gen is other.gen and self.params == other.params
 
     def __hash__(self):
